@@ -371,6 +371,17 @@ func ruleConcurrency(c *Ctx) {
 						closedIn[src][b] = true
 					}
 				}
+			case *ssa.Defer:
+				// defer close(ch): once registered, the channel is closed on every exit
+				if bi, ok := x.Common().Value.(*ssa.Builtin); ok && bi.Name() == "close" {
+					src := chanSource(x.Common().Args[0])
+					if src != nil {
+						if closedIn[src] == nil {
+							closedIn[src] = map[*ssa.BasicBlock]bool{}
+						}
+						closedIn[src][b] = true
+					}
+				}
 			}
 		})
 		if len(sent) == 0 {
